@@ -7,25 +7,25 @@ model of THIS source.  Which function changed is reported by ./check from corpus
 -/
 namespace QR.Pinned
 
-def fp_C01 : Nat := 0xf6cdd5d0f95e426
-def fp_C02 : Nat := 0xb59ee6f036eda24
-def fp_C03 : Nat := 0x6398759f9b4b053
-def fp_C04 : Nat := 0x6bb5a7c749e5d23
-def fp_C05 : Nat := 0x6bb5a7c749e5d23
-def fp_C06 : Nat := 0xc9f02bb77e4b0bf
-def fp_C07 : Nat := 0xc9cf98dbb4c3e16
-def fp_C08 : Nat := 0x084252f5f7f9884
-def fp_C09 : Nat := 0xe156c4d5f634b2e
-def fp_C10 : Nat := 0x9c139b0f0190876
-def fp_C11 : Nat := 0x4f0d1abf3e2841d
-def fp_C12 : Nat := 0xba91a70bb0c79fd
-def fp_C13 : Nat := 0x3be69c81d96dc9c
-def fp_C14 : Nat := 0x0eae34492d0ade7
-def fp_C15 : Nat := 0x5a57c3885c24bf8
-def fp_C16 : Nat := 0x8cd42679610c24b
-def fp_C17 : Nat := 0x1851251ccf554aa
-def fp_C18 : Nat := 0xb9fbbeac143ffc4
-def fp_C19 : Nat := 0x2577de5f94c573b
-def fp_C20 : Nat := 0x05099ca4741040b
+def fp_C01 : Nat := 0x13656121896c322
+def fp_C02 : Nat := 0x4c3fc725a8fbb62
+def fp_C03 : Nat := 0xce40a309eb55531
+def fp_C04 : Nat := 0x42c3aef760a2a42
+def fp_C05 : Nat := 0xbd54c076ae45f60
+def fp_C06 : Nat := 0xaca89e7dbdd8610
+def fp_C07 : Nat := 0x2790ba17dc1ffc7
+def fp_C08 : Nat := 0xaca89e7dbdd8610
+def fp_C09 : Nat := 0xbd54c076ae45f60
+def fp_C10 : Nat := 0xbd54c076ae45f60
+def fp_C11 : Nat := 0x1188e6b527ea9b3
+def fp_C12 : Nat := 0x294882939dbc205
+def fp_C13 : Nat := 0xb26eb5ca71e5dbd
+def fp_C14 : Nat := 0x1b016f1c8a0d958
+def fp_C15 : Nat := 0xea1cddeaa1efee1
+def fp_C16 : Nat := 0xea1cddeaa1efee1
+def fp_C17 : Nat := 0xcd82004b311aef6
+def fp_C18 : Nat := 0xe798d7e3e4c574c
+def fp_C19 : Nat := 0x708e599956bc737
+def fp_C20 : Nat := 0xff2882cd9d961b1
 
 end QR.Pinned
